@@ -338,7 +338,45 @@ class Flow:
                 return (("fmt", v, None, -1),)
             if textual(l) or textual(r):
                 return flatten_fstr(("fstr", parts(l) + parts(r)))
+        if isinstance(n.op, ast.Mod) and l[0] == "const" and isinstance(l[1], str):
+            fs = self._percent_to_fstr(l[1], r)
+            if fs is not None:
+                return fs
         return ("binop", type(n.op).__name__, l, r)
+
+    @staticmethod
+    def _percent_to_fstr(text, arg):
+        """'a%sb%d' % (x, y) as the f-string it is equal to (plain %s / %d / %i / %r fields and %% only); None for anything else"""
+        import re as _re
+        pieces = _re.split(r"(%[sdir%])", text)
+        if "%" in "".join(pieces[0::2]):
+            return None         # a conversion with flags / width / mapping key: not modelled
+        fields = [p_ for p_ in pieces[1::2] if p_ != "%%"]
+        if arg[0] == "tuple" and not any(a[0] == "star" for a in arg[1]):
+            args = list(arg[1])
+        elif arg[0] in ("tuple", "dict", "list", "unknown", "phi", "ifexp", "call", "meth", "param", "global", "carried", "acc"):
+            return None         # might be a tuple at run time: the number of arguments is not visible
+        else:
+            args = [arg]
+        if len(args) != len(fields):
+            return None
+        parts, it = [], iter(args)
+        for p_ in pieces:
+            if p_ == "%%":
+                parts.append(("const", "%"))
+            elif p_ in ("%s", "%d", "%i", "%r"):
+                v = next(it)
+                if p_ == "%s" and v[0] == "const" and isinstance(v[1], str):
+                    parts.append(v)
+                elif p_ == "%s" and v[0] == "fstr":
+                    parts.extend(v[1])
+                elif p_ == "%r":
+                    parts.append(("fmt", v, None, ord("r")))
+                else:
+                    parts.append(("fmt", v, None if p_ == "%s" else "d", -1))
+            elif p_:
+                parts.append(("const", p_))
+        return flatten_fstr(("fstr", tuple(parts)))
 
     def e_UnaryOp(self, n):
         return ("unop", type(n.op).__name__, self.ev(n.operand))
